@@ -79,6 +79,7 @@ type c19aFaulty struct {
 	failAdd    bool
 	removes    int
 	fired      string
+	snapshot   []c19aEntry // the listing handed to the client, in the agent's order
 }
 
 var errC19aInjected = fmt.Errorf("verif: injected agent failure")
@@ -88,7 +89,17 @@ func (f *c19aFaulty) List() ([]*agent.Key, error) {
 		f.fired = "list"
 		return nil, errC19aInjected
 	}
-	return f.Agent.List()
+	keys, err := f.Agent.List()
+	for _, k := range keys {
+		h := sha256.Sum256(k.Blob)
+		pk, perr := ssh.ParsePublicKey(k.Blob)
+		isCert := false
+		if perr == nil {
+			_, isCert = pk.(*ssh.Certificate)
+		}
+		f.snapshot = append(f.snapshot, c19aEntry{k.Comment, string(h[:8]), isCert})
+	}
+	return keys, err
 }
 
 func (f *c19aFaulty) Remove(key ssh.PublicKey) error {
@@ -216,7 +227,7 @@ func TestVerif_C19A(t *testing.T) {
 				if fault.remove >= 0 {
 					fr = fault.remove + 1
 				}
-				steps = append(steps, fmt.Sprintf("(AUpsertF %s %d %s (%s) %s, %s)", coqBool(fault.list), fr, coqBool(fault.add), added.coq(), coqBool(err == nil), c19aCoqListing(after)))
+				steps = append(steps, fmt.Sprintf("(AUpsertF %s %d %s (%s) %s %s, %s)", coqBool(fault.list), fr, coqBool(fault.add), added.coq(), c19aCoqListing(fa.snapshot), coqBool(err == nil), c19aCoqListing(after)))
 				descs = append(descs, fmt.Sprintf("AUpsertF list=%v remove=%d add=%v %s %s fired=%q err=%v -> %d entries", fault.list, fault.remove, fault.add, key.kind, label, fa.fired, err != nil, len(after)))
 				res.bump("AUpsertF:" + map[string]string{"": "none-fired", "list": "list", "remove": "remove", "add": "add"}[fa.fired])
 				n, had, present := 0, 0, false
